@@ -4,6 +4,7 @@
 -/
 import Generated.Types
 set_option maxRecDepth 4000
+set_option linter.unusedVariables false
 namespace Webauthn.Generated.Fallback
 
 -- [exceptions] extracted
